@@ -781,7 +781,7 @@ def run(out):
                 '(depth-first, stateless), for %d larger ones seeded random and priority schedules; each executed schedule is replayed on the model (same thread ids, same '
                 'steps) and the per-thread results, the final queue, the device buffer and the number of sleeps are compared; the oracle checks on the real run: no exception, '
                 'nothing lost / duplicated / invented, per-sender order, received objects are copies. MultiPort (fan-in from and fan-out to two EchoPorts, every lock and deque '
-                'scheduled): the same oracle on the real run; pure fan-in runs are replayed on ConcMulti.v, pure fan-out runs on ConcFan.v, and EVERY run without the helper functions - fan-in, fan-out and any mix of uses, random programs of 2-4 threads using all three ports included - on ConcMix.v; runs that call the helper functions multi_send / multi_receive on a shared list of ports (polled in an order other than the list order) are replayed on ConcHelpers.v (a helper call expanded into the sends / drains it spells out, results folded back to one per call), except programs that also receive on the MultiPort itself (the harness reverses every polling order then, the sweep's too), which are left to the oracle. Non-trivial: every run; distinct by schedule.'
+                'scheduled): the same oracle on the real run; pure fan-in runs are replayed on ConcMulti.v, pure fan-out runs on ConcFan.v, and EVERY run without the helper functions - fan-in, fan-out and any mix of uses, random programs of 2-4 threads using all three ports included - on ConcMix.v; runs that call the helper functions multi_send / multi_receive on a shared list of ports (polled in an order other than the list order) are replayed on ConcHelpers.v (a helper call expanded into the sends / drains it spells out, results folded back to one per call), except programs that also receive on the MultiPort itself (the harness reverses every polling order then, that of the sweep too), which are left to the oracle. Non-trivial: every run; distinct by schedule.'
                 % (len(small), 2 if quick else 3, len(more)))
     from props import c10_copy
     ncopy = c10_copy.run(out, rng)
